@@ -120,15 +120,7 @@ class Intersection:
         """
         mina, maxa = min(avals), max(avals)
         minb, maxb = min(bvals), max(bvals)
-        avals = (mina, (mina + maxa) / 2, maxa)
-        bvals = (minb, (minb + maxb) / 2, maxb)
-        for aval in avals:
-            if (aval - minb) * (aval - maxb) < 0:
-                return True
-        for bval in bvals:
-            if (bval - mina) * (bval - maxa) < 0:
-                return True
-        return False
+        return max(mina, minb) <= min(maxa, maxb)
 
     @staticmethod
     def _inse_retangle(ctrlptsa: Tuple[Any], ctrlptsb: Tuple[Any]) -> bool:
